@@ -483,7 +483,13 @@ pub fn gen_layers(rng: &mut Rng, o: &GenOpts) -> Vec<WLayer> {
 			let mut props: Vec<(String, WVal)> = vec![];
 			if let Some(idf) = &o.id_field {
 				if rng.chance(0.9) {
-					let v = if rng.bool() { WVal::Str(format!("id{}", rng.below(12))) } else { WVal::UInt64(rng.below(12)) };
+					// (ids may also be stored as floating-point numbers: 5.0 joins with the row "5")
+					let v = match rng.below(10) {
+						0..=3 => WVal::Str(format!("id{}", rng.below(12))),
+						4..=7 => WVal::UInt64(rng.below(12)),
+						8 => WVal::F64(rng.below(12) as f64),
+						_ => WVal::F32(rng.below(12) as f32),
+					};
 					props.push((idf.clone(), v));
 				}
 			}
